@@ -18,7 +18,7 @@ REQUIRED_HOOKS = [
     "HirshfeldWeights.__call__",
 ]
 REQUIRED_FAMILIES = ["becke-structured", "becke-random", "becke-noble", "becke-select", "becke-axis", "becke-molgrid", "hirshfeld-random", "hirshfeld-molgrid"]
-BUDGET = {"quick": 900, "thorough": 6000}
+BUDGET = {"quick": 900, "thorough": 9000}
 RULE = (
     "One case = one molecule (1..40 atoms, elements 1..86 incl. He/Ne/Ar/Kr/Xe/At/Rn whose Bragg radius is NaN, geometries random / "
     "collinear / near-coincident pairs >= 0.05 bohr / lattice / coplanar, switching order 1..6, sometimes custom radii) with one point set "
@@ -405,7 +405,7 @@ def becke_case(ctx, params, family):
         else:
             w2 = matrix_by_generate(bw, pts2, at2, nums)
         coord = np.maximum(np.abs(pts).max(axis=1), np.abs(pts2).max(axis=1)) + max(np.abs(at).max(), np.abs(at2).max())
-        bound = 1e-13 + 64.0 * m * 1.5**order * np.finfo(float).eps * coord / min(mon.min_atom_distance(at), 1.0e3)
+        bound = 1e-13 + 512.0 * m * 1.5**order * np.finfo(float).eps * coord / min(mon.min_atom_distance(at), 1.0e3)
         decided = bound < 1e-6
         ctx.count("rigid-motion:points-decided", int(decided.sum()))
         ctx.count("rigid-motion:points-too-ill-conditioned", int((~decided).sum()))
